@@ -897,14 +897,36 @@ def install() -> None:
                            garbage_collector, integrity, lock_provider, metadata_manager,
                            s3_consistency, snapshot_manager, storage_backend, transaction)
 
-    for m in (storage_backend, data_operations, file_lock, disk_utils, transaction):
-        if hasattr(m, "os"):
+    import importlib
+    import pkgutil
+    mods = []
+    for mi in pkgutil.iter_modules(datashard.__path__):
+        if mi.name in ("__main__",):
+            continue
+        try:
+            mods.append(importlib.import_module(f"datashard.{mi.name}"))
+        except Exception:
+            pass
+    # every datashard module gets the shims for whatever it imports at module level, so a source change that adds
+    # `import threading` / `import os` / `import tempfile` to another module is still under the simulator's control
+    for m in mods:
+        if hasattr(m, "os") and getattr(m, "os") is _os:
             m.os = SIM_OS
-    for m in (storage_backend, data_operations):
-        m.tempfile = SIM_TEMPFILE
-    disk_utils.shutil = SIM_SHUTIL
-    for m in (storage_backend, integrity, data_operations):
+        if hasattr(m, "tempfile"):
+            m.tempfile = SIM_TEMPFILE
+        if hasattr(m, "shutil") and getattr(m, "shutil") is _shutil:
+            m.shutil = SIM_SHUTIL
+        if hasattr(m, "threading") and getattr(m, "threading") is _threading:
+            m.threading = SIM_THREADING
+        if hasattr(m, "fcntl") and getattr(m, "fcntl") is _real_fcntl:
+            m.fcntl = SIM_FCNTL
         m.open = sim_open
+        # module-level lock objects created at import time (before this function ran) are real locks: an actor
+        # parked at a seam call while holding one would block every other actor's real thread. Swap them.
+        for gname, gval in list(vars(m).items()):
+            tname = type(gval).__name__
+            if type(gval).__module__ == "_thread" and tname in ("lock", "RLock"):
+                setattr(m, gname, SimLock() if tname == "lock" else SimRLock())
     # listing anomaly hook (F9): a fault {"kind": "value", "op": "list_result", "cls": <class of the prefix>}
     # makes the backend's list_files() return an extra, untrusted entry at a chosen position
     def _wrap_list(klass):
@@ -937,8 +959,6 @@ def install() -> None:
         if act is not None:
             act.proc.flock_objs.append(self)
     file_lock.FileLock.__init__ = _fl_init
-    for m in (metadata_manager, transaction, lock_provider):
-        m.threading = SIM_THREADING
     for m in (metadata_manager, snapshot_manager, file_manager, data_structures):
         m.datetime = SimDateTime
     _dt_mod.datetime = SimDateTime
